@@ -228,6 +228,11 @@ def oracle(ctx):
             ctx.rng.shuffle(offs)
         elif order == "out_and_back":
             offs = [offs[0], offs[2], offs[5], offs[4], offs[1], offs[0]]
+        # repeated instants (the lines of a scene share their time; a flipped scene has them in descending runs)
+        if ctx.rng.random() < 0.35:
+            rep = ctx.rng.choice([2, 3])
+            offs = [o for o in offs[:m // rep] for _ in range(rep)]
+            ctx.bump("time_cluster_repeats", "%s x%d" % (order, rep))
         try:
             ts = [t0 + dt.timedelta(seconds=o) for o in offs]
         except OverflowError:
